@@ -140,8 +140,7 @@ pub fn step(rep: &mut Report, file: &[u8], junk: usize, edit: &Edit, history: &[
     let mut captured: Option<BlockList> = None;
     // run the update
     let (result, after_original, rebuilt): (Result<bool, String>, Vec<u8>, Option<Vec<u8>>) = if via_path {
-        let dir = std::path::Path::new("/verif/.build/tmp");
-        let _ = std::fs::create_dir_all(dir);
+        let dir = crate::api::scratch_dir();
         let path = dir.join(format!("c10-{}-{:x}.flac", std::process::id(), fnv(file)));
         std::fs::write(&path, &file[junk..]).ok()?;
         let r = mon::guard(|| {
